@@ -10,6 +10,36 @@ VERIF = Path(__file__).resolve().parent.parent
 
 # property -> (technique, level text, level note, design ref)
 CLAIMED = {
+    "C01": (
+        "abstract state machine over the protocol's inlined CFG (activation sequences) + path-sensitive abstract string/int domain at header sites + may-raise ordering in sinks + catch-all funnels",
+        "Static necessary conditions W1-W6: over every sequence of data_received/timer/done-callback/connection_lost activations no second header, no write after close, no half response, and no state that is open, unanswered, without pending callback and without armed timer; in every sink nothing that may raise is evaluated between first write and close; every header construction site (sink, timeout literal, built-in middleware rejections) is proven `DD SP meta CRLF` with status 10..69, meta CR/LF-free and <=1024 bytes; a body is written only with a proven 2x status; foreign code is called inside catch-all funnels. Not the run-time ordering of events nor transport behaviour after close.",
+        "Trusted: CPython ast, engine CFG/inliner/abstract domains, transport.write/close do not raise, asyncio calls protocol callbacks sequentially with a running loop, custom middleware returns a well-formed header.",
+        "DESIGN.md section 2, C01",
+    ),
+    "C04": (
+        "abstract state machine (gate dominance over activation sequences) + reachability from exception handlers + loop/return analysis of the chain + provenance of consultation arguments + sibling agreement of constructor calls",
+        "Static necessary conditions M1-M5: no handler/upload-handler dispatch is reachable, over any activation sequence, while a chain may be configured and its verdict was not observed truthy in its own callback; no exception handler around a consultation reaches a dispatch; the chain returns (False, that response) at the first falsy verdict, swallows no raising component and admits only after exhaustion; the chain is consulted with transport peername, parsed-request URL and the presented certificate's fingerprint on both backends; both listeners construct the protocol identically; the rejecting component's text is what is written.",
+        "Trusted: CPython ast, engine, asyncio done-callback semantics. Handler side effects before a first await are not decided.",
+        "DESIGN.md section 2, C04",
+    ),
+    "C07": (
+        "abstract state machine (at most one dispatch over activation sequences) + slice/provenance checks + chunk non-interference + must-pass-through on the PyOpenSSL pump",
+        "Static necessary conditions S1-S4: at most one handler/upload-handler dispatch over every sequence of reads, timer and callbacks; Titan content is buffer[:size] at every site and the Gemini path never reads the buffer after the split; in all three data_received methods the chunk only extends the buffer (no per-read state); after the PyOpenSSL handshake a drain of decrypted data follows on every feasible path and every recv() result reaches the inner protocol. TLS record reassembly and byte equality of responses are not decided.",
+        "Trusted: CPython ast, engine, OpenSSL record handling.",
+        "DESIGN.md section 2, C07",
+    ),
+    "C08": (
+        "dominance (edge-blocking reachability) on the inlined data_received CFG with latch carry-over + abstract evaluation of parse_url with violating/conforming samples + guard dominance in the Titan parser + linear-threshold extraction of length checks",
+        "Static necessary conditions V1-V4: line-length test, strict UTF-8 decode and request parser dominate every dispatch/consultation on their success edges (across activations through latches only set behind them) and their failure edges reach none; parse_url raises ValueError on every feasible path for empty/no-scheme/other-scheme/no-host/user/password/fragment samples, returns for a conforming one and reads the port; the Titan parser's five guards and base-URL validation dominate its return; reject exits answer 59 (50 for uploads disabled, decided before parsing); all length checks use 1024 and the threshold `line > 1022 bytes`. That every grammatical URL is accepted intact is not decided.",
+        "Trusted: CPython ast, engine, urllib.parse field semantics.",
+        "DESIGN.md section 2, C08",
+    ),
+    "C15": (
+        "must-pass-through (deadline armed in every accepting protocol's connection_made) + abstract state machine (timer discipline, no unattended open connection) + constant resolution",
+        "Static necessary conditions X1-X4: every accepting protocol arms a deadline on every normal path of connection_made, and the PyOpenSSL wrapper's deadline callback closes an unfinished handshake; over all activation sequences the request timer is disarmed at every dispatch/consultation and there is no reachable state that is open, unanswered, without pending callback and without armed timer; the timer callback replies with a literal 40 header and closes; all delays are positive finite constants. Timer accuracy of the loop is trusted.",
+        "Trusted: CPython ast, engine, asyncio timers and asyncio's own handshake timeout for ssl= listeners.",
+        "DESIGN.md section 2, C15",
+    ),
     "C20": (
         "who-may-construct + must-pass-through on CFG (TLS floor), feasible-path definite assignment, provenance",
         "Static necessary conditions K1-K4 decided on every path of the current source: every TLS context construction site gets a >=1.2 floor before it is returned and nothing lowers it; every listener/connection is given such a context on every feasible path; the manual-TLS wrapper only feeds its inner protocol after do_handshake() and only with tls_conn.recv output; the raw transport only carries bio_read output. A green check means these clauses hold, not that OpenSSL negotiates as configured.",
